@@ -316,7 +316,9 @@ def build_evidence(prop, mod, tier, master, outs, stats, sigs, nt_sigs, violatio
             "simulated_or_stubbed": ["wall/monotonic clock and sleeps (LD_PRELOAD shim)", "PYTHONHASHSEED", "address-space layout (setarch -R or ASLR on)",
                                      "environment, argv, cwd", "random seed (ezodf temp names)", "stored bytes of config/spreadsheet and their corruption",
                                      "I/O errors (open/write/read/rename/remove/mkdir wrappers)", "process death (os._exit at an I/O step)",
-                                     "network / DNS / process spawning (recording stub that always refuses)"],
+                                     "network / DNS / process spawning (recording stub that always refuses)",
+                                     "mount table (temp, home and data file systems: rename/link across them is EXDEV)",
+                                     "scheduling of worker threads (ThreadPoolExecutor / ThreadPool / Thread tasks run serially in an order drawn from the schedule seed; dormant while the tree has no threads)"],
         },
         "source_tree": src,
     }
